@@ -122,9 +122,9 @@ PROPS['C10'] = {
     'exhaustive_note': 'all sequences over {push,pop,unblock_push} of length 1..7 for limits 1 and 2 (6558 histories) - exhaustive for that sub-space only',
     'min_nontrivial': [200, 2000],
     'require_classes': ['lqueue_mt:pops_that_waited', 'lqueue_mt:exceptions_via_unblock'],
-    'single_thread_scenarios': ('lqueue_history', 'lqueue_exhaustive', 'lqueue_string_values', 'lqueue_callback_consumer'),
+    'single_thread_scenarios': ('lqueue_history', 'lqueue_exhaustive', 'lqueue_string_values', 'lqueue_callback_consumer', 'lqueue_ring_container'),
     'jobs': [
-        J('hist_asan', 'c10.cpp', 'asan', [20000, 1000000], scenario='lqueue_exhaustive,lqueue_history,lqueue_string_values,lqueue_callback_consumer', threads=1),
+        J('hist_asan', 'c10.cpp', 'asan', [20000, 1000000], scenario='lqueue_exhaustive,lqueue_history,lqueue_string_values,lqueue_callback_consumer,lqueue_ring_container', threads=1),
         J('mt_asan', 'c10.cpp', 'asan', [30000, 1500000], scenario='lqueue_mt', threads=6),
         J('mt_rel', 'c10.cpp', 'rel', [200000, 10000000], scenario='lqueue_mt', threads=6),
         J('mt_crel', 'c10.cpp', 'crel', [0, 4000000], scenario='lqueue_mt', threads=6, tiers=(T,)),
@@ -243,7 +243,7 @@ PROPS['C02'] = {
 _C03_SCEN = [  # (scenario, threads, quick cases, thorough cases)
     ('future_mt', 5, 12000, 600000), ('future_async_mt', 5, 12000, 600000), ('mutex_mt', 4, 10000, 500000), ('mutex_pool_handoff', 1, 20000, 400000),
     ('queue_mt', 5, 8000, 400000), ('lqueue_mt', 5, 8000, 400000), ('shared_future_mt', 4, 10000, 500000),
-    ('scheduler_threads', 1, 6000, 200000), ('scheduler_stop_race', 1, 6000, 200000), ('pool_mt', 4, 12000, 400000), ('publisher_mt', 4, 8000, 400000), ('signal_mt', 4, 8000, 400000), ('generator_programs', 2, 6000, 300000), ('aggregator_programs', 2, 4000, 200000), ('adapter_matrix', 2, 9000, 400000), ('storage_mt', 2, 12000, 500000), ('async_start_race', 2, 10000, 400000), ('queue_unblock_contended', 4, 6000, 300000), ('publisher_two_publishers', 4, 8000, 400000),
+    ('scheduler_threads', 1, 6000, 200000), ('scheduler_stop_race', 1, 6000, 200000), ('pool_mt', 4, 12000, 400000), ('publisher_mt', 4, 8000, 400000), ('signal_mt', 4, 8000, 400000), ('generator_programs', 2, 6000, 300000), ('aggregator_programs', 2, 4000, 200000), ('adapter_matrix', 2, 9000, 400000), ('storage_mt', 2, 12000, 500000), ('async_start_race', 2, 10000, 400000), ('queue_unblock_contended', 4, 6000, 300000), ('publisher_two_publishers', 4, 8000, 400000), ('publisher_lag_mt', 2, 6000, 300000),
     ('pool_nested', 1, 8000, 300000), ('scheduler_pool_rearm', 1, 6000, 150000), ('pool_dependent', 1, 8000, 300000), ('frame_owned_parties', 1, 8000, 300000), ('async_programs', 1, 6000, 300000),
 ]
 PROPS['C03'] = {
@@ -417,6 +417,7 @@ PROPS['C16'] = {
     'jobs': [
         J('hist_asan', 'c16.cpp', 'asan', [40000, 2000000], scenario='publisher_history', threads=1),
         J('str_asan', 'c16.cpp', 'asan', [20000, 800000], scenario='publisher_string_values', threads=1),
+        J('lag_asan', 'c16.cpp', 'asan', [20000, 800000], scenario='publisher_lag_mt', threads=2),
         J('mt_asan', 'c16.cpp', 'asan', [40000, 2000000], scenario='publisher_mt,publisher_two_publishers'),
         J('mt_rel', 'c16.cpp', 'rel', [150000, 8000000], scenario='publisher_mt,publisher_two_publishers'),
         J('mt_crel', 'c16.cpp', 'crel', [0, 3000000], scenario='publisher_mt', tiers=(T,)),
